@@ -357,6 +357,12 @@ func c08TreeCase(c Case, res *Result, positions []c08Pos) {
 	if len(vs) > 1 {
 		which = append(which, 1+len(sexp)%(len(vs)-1))
 	}
+	// ... and every spelling that leaves a quote of the other kind unescaped inside a literal
+	for i := range vs {
+		if strings.Contains(vs[i].style, "-raw-") && i != which[0] && (len(which) < 2 || i != which[1]) {
+			which = append(which, i)
+		}
+	}
 	for _, i := range which {
 		v := vs[i]
 		base := outs[i]
